@@ -15,13 +15,59 @@ from ..svc_model import ServiceAnalysis, is_response_token
 from ..sym import SymClient, empty_state, is_token, token_class
 
 
+def atomic_claim_problems(repo):
+    """C20.H5: every file _get_storage_file writes is created exclusively ('x' / O_EXCL), or is opened under a name this call
+    has claimed atomically on the path (an exclusive create of that name, or ``os.link`` to it, which fails when the name is
+    taken).  A test with os.path.exists, or a rename onto the name, is no claim: two associations pass it together."""
+    f = repo.func('__init__', '_get_storage_file')
+    hier = exc_hierarchy(repo)
+
+    def ev(call, callee, client, state):
+        if callee in ('open', 'io.open', 'os.open'):
+            return 'open'
+        if callee == 'os.link':
+            return 'link'
+        return None
+
+    def raises(node, client, state):
+        return ['FileExistsError' for n in ast.walk(node) if isinstance(n, ast.Call) and norm(n.func) in ('open', 'io.open', 'os.open', 'os.link')]
+    from ..flow import ExcHierarchy
+    h = ExcHierarchy(dict(hier.parents, FileExistsError='OSError'))
+    c = SymClient(repo, f, event_of=ev, hierarchy=h, raises_of=raises)
+    c.run(empty_state())
+    probs = []
+    n_open = 0
+    for e, s in c.log:
+        if e.kind != 'open':
+            continue
+        n_open += 1
+        path = e.args[0] if e.args else ''
+        mode = e.args[1] if len(e.args) > 1 else dict(e.kwargs).get('mode', "'r'")
+        if not any(ch in mode for ch in 'wxa+') or 'x' in mode or 'O_EXCL' in ' '.join(e.args):
+            continue
+        claimed = [o.args[0] for o in s.trail if o.kind == 'open' and o is not e and o.args and
+                   ('x' in (o.args[1] if len(o.args) > 1 else dict(o.kwargs).get('mode', "'r'")) or 'O_EXCL' in ' '.join(o.args))]
+        claimed += [o.args[1] for o in s.trail if o.kind == 'link' and len(o.args) > 1]
+        if path not in claimed:
+            probs.append('open(..., %s) is not an exclusive create and the name was not claimed atomically on this path: two '
+                         'associations storing the same instance at the same time both pass the existence test and write the same '
+                         'file' % mode)
+    if not n_open:
+        probs.append('no open() found')
+    return sorted(set(probs))
+
+
 def check_no_clobber(repo, rep, rule='C15.V1'):
     f = repo.func('__init__', '_get_storage_file')
     rep.analysed(f)
     hier = exc_hierarchy(repo)
 
-    REMOVERS = ('os.remove', 'os.unlink', 'os.rename', 'os.replace', 'os.renames', 'shutil.move', 'shutil.rmtree', 'os.rmdir',
+    REMOVERS = ('os.remove', 'os.unlink', 'shutil.rmtree', 'os.rmdir',
                 'os.truncate', 'shutil.copy', 'shutil.copyfile', 'shutil.copy2')
+    # library facts (POSIX): rename / replace / move put the source under the destination name and silently replace a file
+    # that is there; link fails with FileExistsError when the destination exists -- an atomic claim of an unused name
+    RENAMERS = ('os.rename', 'os.replace', 'os.renames', 'shutil.move')
+    LINKERS = ('os.link',)
 
     def ev(call, callee, client, state):
         if callee in ('open', 'io.open', 'os.open'):
@@ -30,12 +76,16 @@ def check_no_clobber(repo, rep, rule='C15.V1'):
             return 'exists'
         if callee in REMOVERS:
             return 'remove'
+        if callee in RENAMERS:
+            return 'rename'
+        if callee in LINKERS:
+            return 'link'
         return None
 
     def raises(node, client, state):
         out = []
         for n in ast.walk(node):
-            if isinstance(n, ast.Call) and norm(n.func) in ('open', 'io.open', 'os.open'):
+            if isinstance(n, ast.Call) and norm(n.func) in ('open', 'io.open', 'os.open') + LINKERS:
                 out.append('FileExistsError')
         return out
     from ..flow import ExcHierarchy
@@ -58,9 +108,30 @@ def check_no_clobber(repo, rep, rule='C15.V1'):
             continue
         absent = [cn[1:] for cn in e.conds if cn.startswith('-os.path.exists(')]
         proven = [t[len('os.path.exists('):-1] for t in absent]
-        if path not in proven:
-            probs.append('open(%s, %s) truncates the file it names, but the name proven unused is %s: storing the same SOP '
-                         'instance UID twice overwrites the first file' % (path, mode, proven[-1] if proven else 'none'))
+        # ... or a name this very call has claimed on the path: created exclusively, linked to (fails when taken), or renamed to
+        # (judged below)
+        claimed = [o.args[0] for o in s.trail if o.kind == 'open' and o is not e and o.args and
+                   ('x' in (o.args[1] if len(o.args) > 1 else dict(o.kwargs).get('mode', "'r'")) or 'O_EXCL' in ' '.join(o.args))]
+        claimed += [o.args[1] for o in s.trail if o.kind in ('link', 'rename') and len(o.args) > 1]
+        if path not in proven and path not in claimed:
+            probs.append('open(%s, %s) %s the file it names, but the name proven unused is %s: storing the same SOP '
+                         'instance UID twice overwrites the first file'
+                         % (path, mode, 'truncates' if 'w' in mode else 'writes into', proven[-1] if proven else 'none'))
+    for e, s in c.log:
+        if e.kind != 'rename' or len(e.args) < 2:
+            continue
+        src_, dst_ = e.args[0], e.args[1]
+        absent = [cn[1:] for cn in e.conds if cn.startswith('-os.path.exists(')]
+        proven = [t[len('os.path.exists('):-1] for t in absent]
+        claimed = [o.args[1] for o in s.trail if o.kind == 'link' and len(o.args) > 1 and o is not e]
+        if dst_ not in proven and dst_ not in claimed:
+            probs.append('%s(%s, %s) at line %d: on POSIX the destination is replaced silently when it exists (no FileExistsError is '
+                         'raised), and nothing on this path shows the name unused: storing the same SOP instance UID twice '
+                         'replaces the first file' % (e.callee, src_, dst_, e.line))
+        created = [o for o in s.trail if o.kind == 'open' and o.args and o.args[0] == src_
+                   and ('x' in (o.args[1] if len(o.args) > 1 else dict(o.kwargs).get('mode', "'r'")) or 'O_EXCL' in ' '.join(o.args))]
+        if not created:
+            probs.append('%s(%s, ..) at line %d moves a file this call has not created' % (e.callee, src_, e.line))
     # nothing already in the directory is removed, renamed or copied over: such a call may only name a file this very call
     # created (exclusively) on the path that leads to it -- e.g. to take back a half-written instance
     n_rm = 0
@@ -71,7 +142,8 @@ def check_no_clobber(repo, rep, rule='C15.V1'):
         victim = e.args[-1] if e.callee in ('shutil.copy', 'shutil.copyfile', 'shutil.copy2') else (e.args[0] if e.args else '?')
         created = [o for o in s.trail if o.kind == 'open' and o.args and o.args[0] == victim
                    and ('x' in (o.args[1] if len(o.args) > 1 else dict(o.kwargs).get('mode', "'r'")) or 'O_EXCL' in ' '.join(o.args))]
-        if not created:
+        # (library fact: a name built from uuid.uuid4() / tempfile's mkstemp is this call's own, 122 random bits)
+        if not created and not any(u_ in victim for u_ in ('uuid.uuid4()', 'uuid4()', 'tempfile.mkstemp(', 'mkstemp(')):
             probs.append('%s(%s) at line %d runs on a path on which this call has not created that file (%s): a file that was stored '
                          'before is removed / replaced' % (e.callee, ', '.join(e.args), e.line,
                                                            'after the exclusive open failed' if any(c_.startswith('exc:') for c_ in e.conds)
